@@ -1567,7 +1567,7 @@ class XMLOutputFormattingWrapper:
             testSuiteNode.set('errors', str(suite.errors))
             testSuiteNode.set('failures', str(suite.failures))
             testSuiteNode.set('hostname', hostname)
-            testSuiteNode.set('name', name)
+            testSuiteNode.set('name', _xml_safe(name))
             testSuiteNode.set('time', str(suite.time))
             testSuiteNode.set('timestamp', timestamp)
 
@@ -1602,7 +1602,7 @@ class XMLOutputFormattingWrapper:
                         del tb
 
                     errorNode.set('message', errorMessage.split('\n')[0])
-                    errorNode.set('type', str(excType))
+                    errorNode.set('type', _xml_safe(str(excType)))
                     text = (errorMessage + '\n\n' + _xml_safe(stackTrace))
                     errorNode.text = text
 
@@ -1623,7 +1623,7 @@ class XMLOutputFormattingWrapper:
                         del tb
 
                     failureNode.set('message', errorMessage.split('\n')[0])
-                    failureNode.set('type', str(excType))
+                    failureNode.set('type', _xml_safe(str(excType)))
                     text = f'{errorMessage}\n\n{_xml_safe(stackTrace)}'
                     failureNode.text = text
 
